@@ -17,6 +17,7 @@ def run(chk):
     chk.floor_count("C01.R6:deferred-update call sites", n, 7)
     backtest_rules.run_loop(chk, "C08")
     core_rules.refresh_before_trade(chk, "C08")
+    core_rules.row_hint_rules(chk, "C08")  # history rows are written at the row the hint names: only update()'s own resolved row is ever handed on
     from . import c04
     c04.universe_accessor(chk, "C08")  # no series handed out extends beyond now: the windowed universe and who may write its cache
     from .algo_equiv import check_equiv
